@@ -122,7 +122,7 @@ def run_C20(tier, seed, t0):
 
 def _layout_specs(prop, tier, seed):
     from . import templates
-    tl = list(templates.CURATED) + templates.adjacency()
+    tl = list(templates.CURATED) + templates.adjacency() + templates.between()
     gap_bits, k_bits, max_paths = 23, 34, 600
     if tier == 'thorough':
         tl += templates.enumerated(2, seed, 60)
@@ -173,7 +173,7 @@ def run_C09(tier, seed, t0):
 
 def _product_specs(prop, tier, seed):
     from . import templates
-    tl = list(templates.CURATED) + templates.adjacency()
+    tl = list(templates.CURATED) + templates.adjacency() + templates.between()
     gap_bits, k_bits, max_paths = 23, 34, 600
     if tier == 'thorough':
         tl += templates.enumerated(2, seed, 60)
@@ -286,9 +286,9 @@ def run_C15(tier, seed, t0):
     from .errors import FAULTS
     specs = []
     for f in FAULTS:
-        combos = [(0, 'text'), (len(f[1]) % 9 + 1, 'text'), (10, 'text'), (1, 'included')]
+        combos = [(0, 'text'), (len(f[1]) % 9 + 1, 'text'), (10, 'text'), (1, 'included'), (7, 'after-include'), (5, 'blanks')]
         if tier == 'thorough':
-            combos = [(p, 'text') for p in range(0, 11)] + [(p, 'file') for p in (0, 5, 10)] + [(p, 'included') for p in range(3)]
+            combos = [(p, 'text') for p in range(0, 11)] + [(p, 'file') for p in (0, 5, 10)] + [(p, 'included') for p in range(3)] + [(p, 'after-include') for p in (4, 7, 10)] + [(p, 'blanks') for p in (0, 5, 10)]
         for pos, where in combos:
             if f[0] in ('include_missing', 'include_bytes_missing') and where == 'text' and pos not in (0, 10):
                 pass
@@ -323,7 +323,7 @@ def run_C17(tier, seed, t0):
     combos = [(pg, av) for pg in PROGRAMS for av in ARGVS]
     if tier != 'thorough':
         keep = {('range', a) for a in ARGVS} | {(pg, 'o_l') for pg in PROGRAMS} | {(pg, 'l_hex') for pg in PROGRAMS} | \
-               {('data', 'o_hex_bad'), ('li_label', 'hex_bad_l'), ('range', 'hex_sym'), ('li_label', 'hex_sym_l'), ('ok_only', 'hex_sym'), ('included', 'i_dir'), ('ok_only', 'defs_v'), ('parse', 'i_bad'), ('li_label', 'default')}
+               {('data', 'o_hex_bad'), ('li_label', 'hex_bad_l'), ('range', 'hex_sym'), ('li_label', 'hex_sym_l'), ('nolabels', 'defs_v'), ('nolabels', 'hex_sym_l'), ('ok_only', 'hex_sym'), ('included', 'i_dir'), ('ok_only', 'defs_v'), ('parse', 'i_bad'), ('li_label', 'default')}
         combos = [c for c in combos if c in keep]
     specs = [('harness.cli', 'cli_task', c) for c in combos]
     res = pmap(specs)
@@ -369,7 +369,7 @@ def run_C18(tier, seed, t0):
 
 
 def run_C19(tier, seed, t0):
-    K = 1 if tier == 'thorough' else 0
+    K = 2 if tier == 'thorough' else 1
     specs = [('harness.dfu', 'dfu_task', ('C19', 'oversize', 'sym', 0, None, 'one'))]
     for v in range(4):
         for extra in (1, 2, 511, 1023, 1024, 1025):
